@@ -236,12 +236,24 @@ func init() {
 	gramSpecs["C03"] = func(c *Ctx) ([]*family.Grammar, *GramSpec) {
 		N := maxN(c)
 		stdBounds(c, N)
+		c.Bounds["entry_rules"] = "every rule of each grammar (first rule via Parse(), others via Parse(rule constant))"
 		return parserFamily(c, ""), &GramSpec{
 			Variants: []string{"d"},
 			Entries: func(gg *GenGrammar) []EntrySpec {
 				return []EntrySpec{{Name: "C03", Params: "n, rule int", Body: "hl.C03(G, vd.New, n, rule, NSW)"}}
 			},
-			Jobs:              func(gg *GenGrammar) []*Job { return lenJobs("C03", nFor(c, gg, N), 0) },
+			Jobs: func(gg *GenGrammar) []*Job {
+				// from every entry rule: Parse(rule) must leave the derivation of that rule
+				var jobs []*Job
+				for r := range gg.G.G.Rules {
+					n := nFor(c, gg, N)
+					if r > 0 {
+						n = N
+					}
+					jobs = append(jobs, lenJobs("C03", n, r)...)
+				}
+				return jobs
+			},
 			LongJobs:          stdLong(c, "C03", 0, 0),
 			RawJobs:           rawJobs(c, "C03", 0),
 			BrokenIsViolation: true, ValidateEveryGrammar: validateEvery(c), Cfg: parserCfg(c),
